@@ -73,8 +73,8 @@ def match_known(known, cid, v):
 
 
 def mech_key(v):
-    """Key used only to de-duplicate candidate violations inside one run."""
-    return json.dumps([v.get("oracle"), v.get("symptom"), v.get("site"), sorted(set(v.get("ops", []) or []))[:8], v.get("mech")], default=str)
+    """Coarse key used only to group unlisted candidate violations inside one run."""
+    return json.dumps([v.get("oracle"), v.get("symptom"), v.get("site"), v.get("stage"), v.get("rule"), v.get("mech")], default=str)
 
 
 def short(s):
@@ -83,7 +83,7 @@ def short(s):
 
 def brief(v):
     out = {}
-    for k in ("oracle", "symptom", "site", "ops", "classes", "detail", "stage", "got", "exp", "diff", "src"):
+    for k in ("oracle", "symptom", "site", "stage", "rule", "ops", "detail", "got", "exp", "col", "src"):
         if k in v:
             out[k] = v[k]
     return out
